@@ -39,8 +39,12 @@ CHECKS = {
         "consistency; the edge rebuild of generate_mesh restores 'a vertex lists an edge iff it ends there'. Tied to the code per run: "
         "after every step of generated histories (each parser, generate_mesh, Frame) the real dictionaries are dumped and the predicate is "
         "evaluated by the Lean driver and by an independent Python transcription (incl. object identity); `ofLists` and `generateMesh` are "
-        "compared with the real constructors / generate_mesh exactly. Skeleton clean-up and join_two_vertices have no preservation theorem "
-        "(listed as pending): for them the claim rests on the per-run evaluation.",
+        "compared with the real constructors / generate_mesh exactly. The WKT parser has its own token-level model (12 theorems: a completed "
+        "lattice is consistent exactly when no row repeats a position) compared exactly per run. join_two_vertices preserves consistency "
+        "under an explicit decidable precondition (joinTwoVertices_consistent; each part of the precondition shown necessary by a witness; "
+        "chains of merges — finding D17 — are machine-checked counterexamples). The generate_mesh merge loop as a whole and the skeleton "
+        "clean-up have no preservation theorem (pending): for them the claim rests on the per-run evaluation on parsed, generated and "
+        "resampled meshes (shipped files, generated dumps, rasterised skeletons thinned and as drawn, tessellations, WKT).",
    design_ref="DESIGN.md §7 C09",
    technique="Lean 4 invariant theorems over an association-list mesh model + per-step evaluation of the Lean predicate on dumps of the real objects",
    note=BASE_NOTE + " CPython is assumed to run __del__ as soon as the last reference goes."),
